@@ -136,7 +136,7 @@ func rawFor(kind, uname, size string, seed int64) []RawKey {
 			r := rand.New(rand.NewSource(seed))
 			r.Shuffle(len(u), func(i, j int) { u[i], u[j] = u[j], u[i] })
 			return u[:min(len(u), 11)]
-		case "fan1", "fan2", "fanb", "fan18":
+		case "fan1", "fan2", "fanb", "fan18", "fan64":
 			return Universe(uname, size, seed)
 		case "fanp":
 			// all 256 values of the last byte below a fixed w-1 byte path: a 256-class node WITH a compressed path
@@ -401,6 +401,12 @@ func cmdRandom(args []string) {
 			}
 			if (i+1)%*batEvery == 0 {
 				rec.RunBattery(bt)
+			}
+		}
+		// every probe-only key is absent by construction: deleting it must fail and change nothing
+		for i, e := range uni {
+			if e.Probe && !rec.Dead {
+				rec.Delete(i + 1)
 			}
 		}
 		// drain completely: the emptied tree must behave like a new one
